@@ -298,12 +298,14 @@ def run_check(prop, tier, seed):
             failures.append('vacuity: %s is unreachable (contradictory requires/axioms?)' % it.id)
     # bounded stand-ins (thorough tier only; never counted as proved)
     bounded = []
-    if tier == 'thorough':
-        for bfn in getattr(m, 'BOUNDED', []):
-            try:
-                bounded.append(bfn(REPO, seed))
-            except Exception:
-                failures.append('bounded stand-in crashed: %s' % traceback.format_exc(limit=5))
+    for bfn in getattr(m, 'BOUNDED', []):
+        # a stand-in declares the tiers it runs in (attribute `tiers`, default: thorough only)
+        if tier not in getattr(bfn, 'tiers', ('thorough',)):
+            continue
+        try:
+            bounded.append(bfn(REPO, seed, tier))
+        except Exception:
+            failures.append('bounded stand-in crashed: %s' % traceback.format_exc(limit=5))
     # verdicts
     violations = []
     known_lines = []
